@@ -158,3 +158,23 @@ impl<TS: TimeSource> ClaimTable<TS> {
 }
 
 // TODO: test
+
+#[cfg(dswd_vpncloud_verif)]
+pub mod verif {
+    //! Verification hook (read-only dump). Compiled only with --cfg dswd_vpncloud_verif.
+    use super::*;
+
+    impl<TS: TimeSource> ClaimTable<TS> {
+        /// Claims as (peer, range, expiry) in table order.
+        pub fn verif_claims(&self) -> Vec<(SocketAddr, Range, Time)> {
+            self.claims.iter().map(|e| (e.peer, e.claim, e.timeout)).collect()
+        }
+
+        /// Cache entries as (address, peer, expiry), sorted by address bytes.
+        pub fn verif_cache(&self) -> Vec<(Address, SocketAddr, Time)> {
+            let mut v: Vec<_> = self.cache.iter().map(|(a, e)| (*a, e.peer, e.timeout)).collect();
+            v.sort_by_key(|(a, _, _)| (a.len, a.data));
+            v
+        }
+    }
+}
